@@ -5,7 +5,7 @@
 #include "spec.h"
 #include <math.h>
 #include <errno.h>
-extern size_t __sanitizer_get_current_allocated_bytes(void);   /* provided by the ASan runtime */
+extern size_t __sanitizer_get_current_allocated_bytes(void) __attribute__((weak));   /* provided by the ASan runtime; absent in the uninstrumented build */
 
 static int code_ok(long r){ return r>=0 || r==OV_FALSE || r==OV_EOF || r==OV_HOLE || (r<=OV_EREAD && r>=OV_ENOSEEK); }
 
@@ -318,7 +318,7 @@ static void case_c11(const drvargs_t *a,long id){
 }
 
 /* ------------------------------------------------------------------ C13 */
-static size_t heap_now(void){ return __sanitizer_get_current_allocated_bytes(); }
+static size_t heap_now(void){ return __sanitizer_get_current_allocated_bytes? __sanitizer_get_current_allocated_bytes():0; }
 static void c13_judge(size_t base,const char *scn,const char *desc){
   size_t now=heap_now(); res_eval(1);
   if(now!=base) res_viol("C13",scn,"%ld bytes still allocated after the clear calls: %s",(long)now-(long)base,desc);
